@@ -2,7 +2,9 @@
 package c11
 
 import (
+	"encoding/base64"
 	"fmt"
+	"net/url"
 	"strconv"
 	"strings"
 	"sync"
@@ -30,6 +32,21 @@ func leak(secret string, sinks map[string][]string) string {
 
 	if q := strconv.QuoteToASCII(secret); len(q) > 2 && q[1:len(q)-1] != secret {
 		forms = append(forms, q[1:len(q)-1])
+	}
+
+	// the renderings fmt and friends give a []byte or string: %v of a byte slice (decimal),
+	// %x / %X / % x, base64, URL escaping
+	b := []byte(secret)
+	dec := strings.Trim(fmt.Sprint(b), "[]")
+	forms = append(forms, dec, fmt.Sprintf("%x", b), fmt.Sprintf("%X", b), fmt.Sprintf("% x", b), fmt.Sprintf("% X", b),
+		base64.StdEncoding.EncodeToString(b), base64.RawStdEncoding.EncodeToString(b), base64.URLEncoding.EncodeToString(b))
+
+	if e := url.QueryEscape(secret); e != secret {
+		forms = append(forms, e)
+	}
+
+	if e := url.PathEscape(secret); e != secret {
+		forms = append(forms, e)
 	}
 
 	for name, msgs := range sinks {
@@ -136,7 +153,7 @@ func genEsc(t *rapid.T) EscCase {
 		WriteFailAfter: rapid.SampledFrom([]int{-1, -1, -1, 0, 1, 2, 3, 4, 5, 6}).Draw(t, "writeFailAfter"),
 
 		InOnOpen:       rapid.Bool().Draw(t, "inOnOpen"),
-		ReadFault:      rapid.SampledFrom([]string{"", "", "eof", "err"}).Draw(t, "readFault"),
+		ReadFault:      rapid.SampledFrom([]string{"", "", "eof", "err", "stall"}).Draw(t, "readFault"),
 		ReadFaultAfter: rapid.IntRange(0, 90).Draw(t, "readFaultAfter"),
 	}
 }
@@ -273,7 +290,9 @@ func runEsc(c EscCase) ev.Verdict {
 		options.WithChannelLog(col),
 	}
 
-	faultKind := map[string]string{"eof": sim.FaultEOF, "err": sim.FaultErr}[c.ReadFault]
+	// "stall": the device goes quiet (the operation in flight times out with the secret possibly
+	// in its inputs)
+	faultKind := map[string]string{"eof": sim.FaultEOF, "err": sim.FaultErr, "stall": sim.FaultSilent}[c.ReadFault]
 
 	if c.InOnOpen {
 		dopts = append(dopts, options.WithNetworkOnOpen(doOp))
